@@ -135,10 +135,17 @@ def rule_due(R):
         all((a[0] == "const" and a[2] == 0) or a[0] == "un" for a in alts)
     R.ob("due/shape", sw1 is not None and sw2 is not None and okcl and okv,
          "a PINGREQ is due iff no response is outstanding, now >= next_ping, and none is queued already", where=sq_b.span)
-    hp = roles.method(f, OUTBOUND, "has_pending_pingreq")
-    clh = [c for c in f.children(hp) if c.kind == "closure"]
-    okh = len(clh) == 1 and "PingReq" in show(clh[0].local_term(0)) + "".join(show(clh[0].switch_info(b)["subject"]) + str(clh[0].switch_info(b)["edges"]) for b in clh[0].switches)
-    R.ob("due/pending-lookup", okh and is_call(peel(hp.local_term(0)), "any"), "has_pending_pingreq looks for an unsent PINGREQ in the control queue", where=hp.span)
+    try:
+        hp = roles.method(f, OUTBOUND, "has_pending_pingreq")
+    except AnchorLost:
+        hp = None
+    okh = False
+    if hp is not None:
+        clh = [c for c in f.children(hp) if c.kind == "closure"]
+        okh = len(clh) == 1 and "PingReq" in show(clh[0].local_term(0)) + "".join(show(clh[0].switch_info(b)["subject"]) + str(clh[0].switch_info(b)["edges"]) for b in clh[0].switches)
+        okh = okh and is_call(peel(hp.local_term(0)), "any")
+    R.ob("due/pending-lookup", okh, "a PINGREQ that is queued but not yet sent is found by a lookup in the control queue "
+         "(Outbound::has_pending_pingreq)", where=hp.span if hp is not None else sq_b.span)
     mq_b, mq = cm["maybe_queue_pingreq"]
     qc = outq.role_fn(f, "queue_control")
     qcs = outq.calls_to(f, mq, qc)
@@ -319,6 +326,11 @@ def rule_const(R):
         any(x[0] == "field" and x[2] == "keepalive_interval" for a in phi_alts(v[0][2]) for x in walk(a))
     R.ob("const/server-keepalive", ok,
          "the effective keep-alive is the configured one, replaced by the CONNACK's Server Keep Alive when present", where=hb.span)
+    a = roles.connack_property_arms(f).get("ServerKeepAlive")
+    okh = a is not None and a["unconditional"] and any(nm == "keepalive_interval" and is_call(peel(v), "Duration::from_secs") for nm, v in a["stores"])
+    R.ob("const/server-keepalive-honoured", okh,
+         "a Server Keep Alive in the CONNACK always replaces the configured keep-alive (converted from seconds)",
+         where=a["span"] if a else hb.span)
     # and restarts the schedule after CONNACK
     noa = roles.method(f, RUNTIME, "note_outbound_activity")
     ka_store = [bb for (b, bb, vv, sp) in field_stores(f, "keepalive_interval") if b.name == hcode.name]
